@@ -193,11 +193,14 @@ func c06Corpus() []c06In {
 	return cs
 }
 
-func c06Random(r *rand.Rand, heavyKeys bool) c06In {
+func c06Random(r *rand.Rand, heavyKeys, rsa4096 bool) c06In {
 	n := 1 + r.Intn(3)
 	kt := []string{"p256", "p256", "ed25519", "p384"}[r.Intn(4)]
 	if heavyKeys && r.Intn(45) == 0 {
 		kt = "rsa2048"
+	}
+	if rsa4096 && r.Intn(1000) == 0 { // seconds per key: thorough tier only (rsa8192: minutes per key, omitted)
+		kt = "rsa4096"
 	}
 	in := c06In{Cfg: c06Cfg{N: n, Reuse: r.Intn(2) == 0, Rnd: r.Intn(4) == 0, KeyType: kt}, Subj: c06Subjects[r.Intn(len(c06Subjects))]}
 	if r.Intn(3) == 0 {
@@ -263,7 +266,11 @@ func c06Run(tier string, seed int64, outdir string, replay string) error {
 	w := emit.NewWriter(outdir, "C06", tier, seed)
 	defer w.Close()
 	w.Meta.Rule = "a history counts as non-trivial when it has at least two steps and at least one certificate was really issued and stored; distinct = distinct (config, subject, steps with oracle answers)"
-	w.Meta.Oracles = append(w.Meta.Oracles, c06PemCodecOracle([]string{"ed25519", "p256", "p384", "rsa2048"}))
+	kts := []string{"ed25519", "p256", "p384", "rsa2048"}
+	if tier == "thorough" {
+		kts = append(kts, "rsa4096")
+	}
+	w.Meta.Oracles = append(w.Meta.Oracles, c06PemCodecOracle(kts))
 	if replay != "" {
 		rc, err := loadReplay(replay)
 		if err != nil {
@@ -289,7 +296,7 @@ func c06Run(tier string, seed int64, outdir string, replay string) error {
 	}
 	r := rand.New(rand.NewSource(seed))
 	for i := 0; i < n; i++ {
-		c06RunCase(w, c06Random(r, true), "random")
+		c06RunCase(w, c06Random(r, true, tier == "thorough"), "random")
 	}
 	canonNote := emit.OracleCheck{Name: "canonical names: Safe(idna(name)) = Safe(name) for every canonical subject used (model's [canon])", OK: len(w.Meta.Notes) == 0}
 	if !canonNote.OK {
